@@ -18,12 +18,16 @@ pub struct PrmCase {
     pub script: Option<Vec<Vec<f64>>>,
     pub start2: Vec<f64>,
     pub goal2: GoalSpec,
+    /// when set, the connection radius is the space's own distance between these two states,
+    /// so that sample pairs lie *exactly* one radius apart (strictness of `<`)
+    pub radius_from: Option<(Vec<f64>, Vec<f64>)>,
 }
 impl PrmCase {
     pub fn to_json(&self) -> Value {
         json!({"kind":"prm","problem":self.problem.to_json(),"params":self.params.to_json(),"n_samples":self.n_samples,
                "script":self.script.as_ref().map(|s| s.iter().map(|x| fjs(x)).collect::<Vec<_>>()),
-               "start2":fjs(&self.start2),"goal2":self.goal2.to_json()})
+               "start2":fjs(&self.start2),"goal2":self.goal2.to_json(),
+               "radius_from":self.radius_from.as_ref().map(|(a,b)| json!([fjs(a),fjs(b)]))})
     }
     pub fn from_json(v: &Value) -> PrmCase {
         PrmCase {
@@ -33,6 +37,7 @@ impl PrmCase {
             script: v["script"].as_array().map(|a| a.iter().map(parse_fs).collect()),
             start2: parse_fs(&v["start2"]),
             goal2: GoalSpec::from_json(&v["goal2"]),
+            radius_from: v["radius_from"].as_array().map(|a| (parse_fs(&a[0]), parse_fs(&a[1]))),
         }
     }
 }
@@ -82,9 +87,24 @@ pub fn make_case(r: &mut Sm, idx: usize, exhaustive: Option<(usize, usize)>) -> 
         Some(s) => s.len() as u64,
         None => n_samples.max(1).min(cap),
     };
-    let start2 = rand_state(r, &spec);
+    let mut start2 = rand_state(r, &spec);
     let goal2 = GoalSpec { centre: rand_state(r, &spec), radius: problem.goal.radius, mode: crate::world::GoalMode::Centre, fail_at: None };
-    PrmCase { problem, params, n_samples, script, start2, goal2 }
+    // exact ties: radius = distance between two scripted samples; sometimes the second start is
+    // a scripted sample too
+    let mut radius_from = None;
+    if let Some(sc) = &script {
+        if sc.len() >= 2 && r.bool(0.3) {
+            let a = sc[r.below(sc.len())].clone();
+            let b = sc[r.below(sc.len())].clone();
+            if a != b {
+                radius_from = Some((a, b));
+            }
+            if r.bool(0.5) {
+                start2 = sc[r.below(sc.len())].clone();
+            }
+        }
+    }
+    PrmCase { problem, params, n_samples, script, start2, goal2, radius_from }
 }
 
 /// Reference multi-source BFS on the snapshot graph; returns the minimum number of milestones
@@ -160,12 +180,11 @@ fn judge_query<K: Kit>(q: &Q<K>, b: &mut Batch, road: &[(Vec<f64>, Vec<usize>)],
     let mut s_min = vec![];
     let mut s_max = vec![];
     for (i, (s, _)) in road.iter().enumerate() {
-        let dsi = q.d(start, s);
-        let tol = len_tol(q.kit, dsi.max(r));
-        if dsi < r + tol {
+        let (d1, d2) = (q.d(start, s), q.d(s, start));
+        if d1.min(d2) < r {
             s_max.push(i);
         }
-        if dsi < r - tol && !acc.rejected_on(q.kit, q.sp, &start_s, &q.kit.unflat(s)) {
+        if d1.max(d2) < r && !acc.rejected_on(q.kit, q.sp, &start_s, &q.kit.unflat(s)) {
             s_min.push(i);
         }
     }
@@ -209,8 +228,9 @@ fn judge_query<K: Kit>(q: &Q<K>, b: &mut Batch, road: &[(Vec<f64>, Vec<usize>)],
             }
             let d0 = q.d(start, &p[1]);
             let tol = len_tol(q.kit, d0.max(r));
-            if !(d0 < r + tol) {
-                q.viol("start-connection-beyond-radius", format!("{label}: first hop {d0} >= radius {r}"));
+            let d0 = d0.min(q.d(&p[1], start));
+            if !(d0 < r) {
+                q.viol("start-connection-beyond-radius", format!("{label}: first hop {d0} is not below the radius {r}"));
             }
             let lvs = q.sp.get_longest_valid_segment_length();
             let (gap, _, l) = acc.max_gap(q.kit, q.sp, &start_s, &q.kit.unflat(&p[1]));
@@ -255,9 +275,18 @@ fn run_case<K: Kit>(ctx: &Ctx, b: &mut Batch, kit: &K, case: &PrmCase) {
     b.evaluations += 1;
     let Ok(eval) = WorldEval::<K>::new(kit, &case.problem.world) else { return };
     let sp = &eval.sp;
-    let q = Q { ctx, kit, sp, case };
     oxmpl::verif::arm(0);
     let build_secs = (case.n_samples as f64 - 0.5) * 1e-3;
+    let mut case_owned = case.clone();
+    if let Some((a, bq)) = &case.radius_from {
+        let dr = sp.distance(&kit.unflat(a), &kit.unflat(bq));
+        if dr > 0.0 && dr.is_finite() {
+            case_owned.params.connection_radius = dr;
+            b.count("cases_with_exact_tie_radius", 1);
+        }
+    }
+    let case = &case_owned;
+    let q = Q { ctx, kit, sp, case };
     let Ok(mut d) = Drv::new(kit, &case.params, build_secs) else { return };
     d.log.borrow_mut().budget = 3_000_000;
     let mode = match &case.script {
@@ -342,10 +371,14 @@ fn run_case<K: Kit>(ctx: &Ctx, b: &mut Batch, kit: &K, case: &PrmCase) {
             }
             if k > i {
                 b.count("links_checked", 1);
-                let dik = sp.distance(&states[i], &states[k]);
+                // both argument orders: only a distance that is >= r either way refutes `d < r`
+                let dik = sp.distance(&states[i], &states[k]).min(sp.distance(&states[k], &states[i]));
                 let tol = len_tol(kit, dik.max(r));
-                if !(dik < r + tol) {
-                    q.viol("link-beyond-radius", format!("{i} - {k}: distance {dik} >= radius {r}"));
+                if !(dik < r) {
+                    if dik == r {
+                        b.count("links_at_exactly_the_radius", 1);
+                    }
+                    q.viol("link-beyond-radius", format!("{i} - {k}: distance {dik} is not below the radius {r}"));
                 }
                 let (gap, _, l) = acc.max_gap(kit, sp, &states[i], &states[k]);
                 b.max("worst_link_gap_over_lvs", if lvs > 0.0 { gap / lvs } else { 0.0 });
@@ -357,9 +390,11 @@ fn run_case<K: Kit>(ctx: &Ctx, b: &mut Batch, kit: &K, case: &PrmCase) {
     }
     for i in 0..n {
         for k in (i + 1)..n {
-            let dik = sp.distance(&states[i], &states[k]);
-            let tol = len_tol(kit, dik.max(r));
-            if dik < r - tol && !road[i].1.contains(&k) {
+            let dik = sp.distance(&states[i], &states[k]).max(sp.distance(&states[k], &states[i]));
+            if dik == r {
+                b.count("pairs_at_exactly_the_radius", 1);
+            }
+            if dik < r && !road[i].1.contains(&k) {
                 if free {
                     q.viol("missing-link-in-free-world", format!("{i} - {k}: distance {dik} < radius {r}"));
                 } else if !acc.rejected_on(kit, sp, &states[i], &states[k]) {
@@ -442,7 +477,7 @@ pub fn run(tier: Tier, seed: u64) -> i32 {
         }
         ctx.merge(b);
     });
-    for k in ["roadmaps_with_2plus_milestones", "links_checked", "query_paths", "query_nosolution", "hop_minimality_checks", "unreachable_confirmed_by_reference", "queries[P2]", "repeated_constructions"] {
+    for k in ["pairs_at_exactly_the_radius", "roadmaps_with_2plus_milestones", "links_checked", "query_paths", "query_nosolution", "hop_minimality_checks", "unreachable_confirmed_by_reference", "queries[P2]", "repeated_constructions"] {
         ctx.require(k);
     }
     ctx.finish(
